@@ -8,7 +8,7 @@ import (
 	"github.com/fluffle/goirc/logging"
 )
 
-var tagsReplacer = strings.NewReplacer("\\:", ";", "\\s", " ", "\\r", "\r", "\\n", "\n")
+var tagsReplacer = strings.NewReplacer("\\:", ";", "\\s", " ", "\\\\", "\\", "\\r", "\r", "\\n", "\n")
 
 // We parse an incoming line into this struct. Line.Cmd is used as the trigger
 // name for incoming event handlers and is the IRC verb, the first sequence
